@@ -244,6 +244,11 @@ func newC20Server(seed int64, useSMTP bool, jitterOn bool, jsonMode bool) (*c20s
 	ab.Config.Paths.RegisterOK = world.PathRegisterOK
 	ab.Config.Modules.BCryptCost = 4
 	ab.Config.Modules.MailNoGoroutine = false // the library's own mail goroutines run
+	// every list- or map-valued option is set, to something that is neither empty nor already in a
+	// canonical order: whatever the library does with shared configuration per request happens here too
+	ab.Config.Modules.RegisterPreserveFields = []string{"name", "email", "zip", "city", "age"}
+	ab.Config.Storage.SessionStateWhitelistKeys = []string{"app_theme", "app_lang", "app_cart"}
+	ab.Config.Mail.From, ab.Config.Mail.FromName, ab.Config.Mail.SubjectPrefix = "noreply@site.test", "Site", "[site] "
 	ab.Config.Modules.RecoverLoginAfterRecovery = false
 	ab.Config.Modules.LogoutMethod = "DELETE"
 	ab.Config.Modules.TOTP2FAIssuer = "verif"
